@@ -158,7 +158,10 @@ def run(ctx):
              "p => p:fresh:separator('x')", "p => p:separator('x'):fresh", "r[style-name^='a'] => b.c.d[class='e']",
              "p.Hé => p", "p => p", "p\x1f=>\x1fp", "p  =>  p", "br[type='line'] => br", "br[type='x'] => br",
              "highlight[color='yellow'] => mark", "p => a|b|c > d", "p => p.a.b[class='c'].d", "p => p[class='c'][class='d']",
-             "p => p[a='1'][a='2']", "p\r=> p", "p => p > \t q", "p => p>q", "p => p >q"]
+             "p => p[a='1'][a='2']", "p\r=> p", "p => p > \t q", "p => p>q", "p => p >q",
+             # a backslash escapes ONE character, whatever follows it: sequences that other notations read as numeric / named escapes
+             "p => h3.\\U00110000", "p[style-name='\\UFFFFFFFF'] => h5", "p.\\u00e9 => p", "p => p.\\uD800x", "p[style-name='\\x41\\101\\0'] => p",
+             "p => p[title='\\N{DASH}\\U0001F600']", "r.\\U0010FFFF\\U00110000 => em", "p.a\\u12 => p", "p => p.\\u", "p => p['\\U']"]
     n = 6000 if ctx.thorough else 900
     for i in range(n):
         k = rng.random()
